@@ -410,3 +410,31 @@ def builder_steps(c):
     c.mutant("(not adapters2 or not adapters)", "(not adapters2)")
     c.mutant("pair_filter_mode = 'any' if args.pair_filter is None else args.pair_filter", "pair_filter_mode = 'both' if args.pair_filter is None else args.pair_filter")
     c.mutant("pair_filter_mode='both' if override_pair_filter_mode else pair_filter_mode", "pair_filter_mode=pair_filter_mode", occurrence=1)
+
+
+# ------------------------------------------------------------------------------ predicate constructors
+# The `test` contracts above take the predicate's parameters from its fields; these contracts prove that the constructors
+# store the option value there unchanged (and establish the precondition of TooManyN.test).
+def _ctor(cls, field, arg, argtype, extra_ensures=None, requires=None, raises=None):
+    @contract("predicates.py", f"{cls}.__init__", props=["C11"])
+    def _c(c):
+        c.types(self=ObjT(cls), **{arg: argtype})
+        c.modifies = ["self"]
+        if requires:
+            c.requires(**requires)
+        if raises:
+            c.raises(*raises[0], **raises[1])
+        ens = {f"the_option_value_is_the_criterion": f"self.{field} == {arg}"}
+        ens.update(extra_ensures or {})
+        c.ensures(**ens)
+        c.mutant(f"self.{field} = {arg}", f"self.{field} = {arg} + 1")
+    return _c
+
+
+too_short_init = _ctor("TooShort", "minimum_length", "minimum_length", Int)
+too_long_init = _ctor("TooLong", "maximum_length", "maximum_length", Int)
+too_many_ee_init = _ctor("TooManyExpectedErrors", "max_errors", "max_errors", Real)
+too_high_aer_init = _ctor("TooHighAverageErrorRate", "max_error_rate", "max_error_rate", Real,
+                          raises=(("ValueError",), {"when": "not (0 < max_error_rate < 1)"}))
+too_many_n_init = _ctor("TooManyN", "cutoff", "count", Real, requires={"not_negative": "count >= 0"},
+                        extra_ensures={"a_value_below_1_is_a_fraction_of_the_read_length": "self.is_proportion == (count < 1) and self.cutoff >= 0"})
